@@ -104,7 +104,8 @@ ROWS = [
      "provenance", "byte offsets come from char_indices()/find on the same string "
      "(re-verified by C07.a)", None),
     (r"^mach::function::Function::instr/assert:Overflow\(Sub,usize\)#1$", "guarded",
-     "start - 1 after the `start == 0` rejection", G(" Eq const:0)", False)),
+     "start - 1 after the `start <= 0` rejection (start is then cast from a positive i16)",
+     G([" Le const:0)", " Eq const:0)"], False)),
     (r"^mach::function::Function::instr::\{closure#0\}/assert:Overflow\(Add,usize\)#1$",
      "bounded", "only runs when char position start-1 exists in a string, so start <= its "
      "length", None),
